@@ -1,4 +1,5 @@
 import RlModel.Model.Enc
+import RlModel.Lemmas.Crc
 /-!
 Helper lemmas for C06 (column encodings): little-endian integers, varints, the plain / nullable
 builders as folds, bitmap packing.  Core Lean only.
@@ -375,5 +376,705 @@ theorem plain_char_roundtrip (w target : Nat) (cells : List Cell) (h : CharOk w 
     | some it =>
       have := (h it hc).1
       simp [cellBytes, zeros]; omega
+
+
+/-! ### blob / varchar blocks -/
+
+/-- end offsets the blob builder records, starting from `base` bytes already in the block -/
+def blobOffs (base : Nat) : List Cell → List Nat
+  | [] => []
+  | c :: cs => (base + (cellBytes .blob c).length) :: blobOffs (base + (cellBytes .blob c).length) cs
+
+theorem Plain.append_offs_blob (p : Plain) (c : Cell) (hk : p.kind = .blob) :
+    (p.append c).offs = p.offs ++ [p.data.length + (cellBytes .blob c).length] := by
+  cases c <;> simp [Plain.append, Plain.appendValue, Plain.appendDefault, cellBytes, hk]
+
+theorem Plain.foldl_offs_blob (cells : List Cell) (p : Plain) (hk : p.kind = .blob) :
+    (cells.foldl Plain.append p).offs = p.offs ++ blobOffs p.data.length cells := by
+  induction cells generalizing p with
+  | nil => simp [blobOffs]
+  | cons c cs ih =>
+    simp only [List.foldl_cons]
+    rw [ih _ (by rw [Plain.append_kind]; exact hk), Plain.append_offs_blob p c hk, Plain.append_data, hk]
+    simp [blobOffs, List.append_assoc]
+
+theorem readOffsets_flatMap (offs : List Nat) (h : ∀ o ∈ offs, o < 2 ^ 32) (rest : Bytes) :
+    readOffsets offs.length (offs.flatMap (leBytes 4) ++ rest) = offs := by
+  induction offs with
+  | nil => rfl
+  | cons o os ih =>
+    simp only [List.length_cons, readOffsets, List.flatMap_cons, List.append_assoc]
+    rw [List.take_left' (leBytes_length 4 o), List.drop_left' (leBytes_length 4 o), natOfLE_leBytes,
+      ih (fun x hx => h x (by simp [hx]))]
+    have := h o (by simp)
+    rw [Nat.mod_eq_of_lt (by simpa using this)]
+
+theorem blobOffs_length (base : Nat) (cells : List Cell) : (blobOffs base cells).length = cells.length := by
+  induction cells generalizing base with
+  | nil => rfl
+  | cons c cs ih => simp [blobOffs, ih]
+
+theorem blobOffs_le (base : Nat) (cells : List Cell) :
+    ∀ o ∈ blobOffs base cells, o ≤ base + (cells.flatMap (cellBytes .blob)).length := by
+  induction cells generalizing base with
+  | nil => simp [blobOffs]
+  | cons c cs ih =>
+    intro o ho
+    simp only [blobOffs, List.mem_cons] at ho
+    simp only [List.flatMap_cons, List.length_append]
+    rcases ho with rfl | ho
+    · omega
+    · have := ih _ o ho; omega
+
+theorem sliceByOffsets_blob (pre : Bytes) (cells : List Cell) (rest : Bytes) :
+    sliceByOffsets (pre ++ cells.flatMap (cellBytes .blob) ++ rest) pre.length (blobOffs pre.length cells)
+      = cells.map (storedItem .blob) := by
+  induction cells generalizing pre with
+  | nil => rfl
+  | cons c cs ih =>
+    simp only [blobOffs, sliceByOffsets, List.flatMap_cons, List.map_cons]
+    have hst : storedItem .blob c = cellBytes .blob c := by cases c <;> rfl
+    congr 1
+    · rw [List.append_assoc, List.append_assoc, List.drop_left' rfl, Nat.add_sub_cancel_left,
+        List.take_left' rfl, hst]
+    · have := ih (pre ++ cellBytes .blob c)
+      simp only [List.length_append, List.append_assoc] at this ⊢
+      exact this
+
+def BlobOk (cells : List Cell) : Prop := (cells.flatMap (cellBytes .blob)).length < 2 ^ 32
+
+theorem plain_blob_roundtrip (target : Nat) (cells : List Cell) (h : BlobOk cells) (rest : Bytes) :
+    decodePlain .blob cells.length
+      ((cells.foldl Plain.append { kind := .blob, target }).finish ++ rest)
+      = cells.map (storedItem .blob) := by
+  have hoffs : (cells.foldl Plain.append { kind := .blob, target }).offs = blobOffs 0 cells := by
+    rw [Plain.foldl_offs_blob cells { kind := .blob, target } rfl]; rfl
+  simp only [Plain.finish, Plain.foldl_kind, Plain.foldl_data, decodePlain, hoffs, List.nil_append]
+  have hlen := blobOffs_length 0 cells
+  have hoff : ∀ o ∈ blobOffs 0 cells, o < 2 ^ 32 := by
+    intro o ho; have := blobOffs_le 0 cells o ho; unfold BlobOk at h; omega
+  have e1 : readOffsets cells.length
+      (List.flatMap (leBytes 4) (blobOffs 0 cells) ++ List.flatMap (cellBytes Kind.blob) cells ++ rest)
+      = blobOffs 0 cells := by
+    rw [← hlen, List.append_assoc]; exact readOffsets_flatMap _ hoff _
+  have e2 : (List.flatMap (leBytes 4) (blobOffs 0 cells)).length = 4 * cells.length := by
+    rw [← hlen]; generalize blobOffs 0 cells = l
+    induction l with
+    | nil => rfl
+    | cons a as ih => simp [List.flatMap_cons, leBytes_length, ih]; omega
+  rw [e1, List.append_assoc, List.drop_left' e2]
+  have := sliceByOffsets_blob [] cells rest
+  simpa using this
+
+
+/-! ### RLE builder invariant -/
+
+theorem expandRuns_append (cs : List Nat) (hs : List Cell) (cs' : List Nat) (hs' : List Cell)
+    (h : cs.length = hs.length) :
+    expandRuns (cs ++ cs') (hs ++ hs') = expandRuns cs hs ++ expandRuns cs' hs' := by
+  induction cs generalizing hs with
+  | nil => cases hs <;> simp_all [expandRuns]
+  | cons c cs ih =>
+    cases hs with
+    | nil => simp at h
+    | cons x xs => simp [expandRuns, ih xs (by simpa using h), List.append_assoc]
+
+theorem expandRuns_map (f : Cell → Cell) (cs : List Nat) (hs : List Cell) :
+    expandRuns cs (hs.map f) = (expandRuns cs hs).map f := by
+  induction cs generalizing hs with
+  | nil => cases hs <;> simp [expandRuns]
+  | cons c cs ih =>
+    cases hs with
+    | nil => simp [expandRuns]
+    | cons x xs => simp [expandRuns, ih xs]
+
+theorem expandRuns_length (cs : List Nat) (hs : List Cell) (h : cs.length = hs.length) :
+    (expandRuns cs hs).length = cs.sum := by
+  induction cs generalizing hs with
+  | nil => cases hs <;> simp_all [expandRuns]
+  | cons c cs ih =>
+    cases hs with
+    | nil => simp at h
+    | cons x xs => simp [expandRuns, ih xs (by simpa using h)]
+
+theorem le_sum_of_mem' (l : List Nat) (x : Nat) (h : x ∈ l) : x ≤ l.sum := by
+  induction l with
+  | nil => simp at h
+  | cons a as ih =>
+    simp only [List.mem_cons] at h
+    simp only [List.sum_cons]
+    rcases h with rfl | h
+    · omega
+    · have := ih h; omega
+
+theorem encodeVarint_length_le (fuel v : Nat) : (encodeVarint fuel v).length ≤ fuel := by
+  induction fuel generalizing v with
+  | zero => simp [encodeVarint]
+  | succ f ih =>
+    simp only [encodeVarint]
+    split
+    · simp
+    · have := ih (v / 128); simp; omega
+
+theorem flatMap_encode32_length_le (cs : List Nat) : (cs.flatMap encode32).length ≤ 5 * cs.length := by
+  induction cs with
+  | nil => simp
+  | cons c cs ih =>
+    have := encodeVarint_length_le 5 c
+    simp only [List.flatMap_cons, List.length_append, List.length_cons, encode32] at *
+    omega
+
+/-- the run equality is sound: cells it identifies are identical -/
+def EqSound (eq : EqKind) : Prop := ∀ a b : Cell, cellEq eq a b = true → a = b
+
+theorem eqSound_bytes : EqSound .bytes := by
+  intro a b h
+  cases a <;> cases b <;> simp_all [cellEq, itemEq]
+
+/-- state of the RLE builder after appending `cells` to a builder created over `sub0` -/
+def RleInv (sub0 : Sub) (r : Rle) (cells : List Cell) : Prop :=
+  (cells = [] ∧ r.cur = 0 ∧ r.counts = [] ∧ r.sub = sub0) ∨
+  (∃ hs : List Cell, 0 < r.cur ∧ hs.length = r.counts.length
+    ∧ r.sub = (hs ++ [r.prev]).foldl Sub.append sub0
+    ∧ expandRuns r.counts hs ++ List.replicate r.cur r.prev = cells
+    ∧ (hs ++ [r.prev]).Sublist cells)
+
+theorem Rle.append_eq (r : Rle) (c : Cell) : (r.append c).eq = r.eq := by
+  simp only [Rle.append]
+  split
+  · rfl
+  · split <;> rfl
+
+theorem RleInv.step (sub0 : Sub) (r : Rle) (cells : List Cell) (c : Cell)
+    (hs : EqSound r.eq) (h : RleInv sub0 r cells) : RleInv sub0 (r.append c) (cells ++ [c]) := by
+  rcases h with ⟨rfl, hc, hcs, hsub⟩ | ⟨heads, hpos, hlen, hsub, hexp, hsl⟩
+  · right
+    refine ⟨[], ?_⟩
+    simp [Rle.append, hc, hcs, hsub, expandRuns]
+  · right
+    have hne : (r.cur == 0) = false := by simp; omega
+    simp only [Rle.append, hne, Bool.false_eq_true, ↓reduceIte]
+    split
+    · -- new run
+      refine ⟨heads ++ [r.prev], by simp, by simp [hlen], ?_, ?_, ?_⟩
+      · simp [hsub, List.foldl_append]
+      · simp only []
+        rw [expandRuns_append r.counts heads [r.cur] [r.prev] hlen.symm]
+        simp [expandRuns, ← hexp, List.append_assoc]
+      · exact List.Sublist.append hsl (List.Sublist.refl _)
+    · -- same run
+      rename_i hcond
+      have hce : cellEq r.eq c r.prev = true := by
+        simp only [Bool.or_eq_true, Bool.not_eq_true', beq_iff_eq, not_or] at hcond
+        cases hh : cellEq r.eq c r.prev <;> simp_all
+      have hcp : c = r.prev := hs c r.prev hce
+      refine ⟨heads, by simp, hlen, hsub, ?_, ?_⟩
+      · simp only []
+        rw [← hexp, hcp, List.replicate_succ', List.append_assoc]
+      · exact List.Sublist.trans hsl (List.sublist_append_left _ _)
+
+theorem RleInv.foldl (sub0 : Sub) (rest : List Cell) (r : Rle) (done : List Cell)
+    (hs : EqSound r.eq) (h : RleInv sub0 r done) :
+    RleInv sub0 (rest.foldl Rle.append r) (done ++ rest) := by
+  induction rest generalizing r done with
+  | nil => simpa using h
+  | cons c cs ih =>
+    simp only [List.foldl_cons]
+    have := ih (r.append c) (done ++ [c]) (by rw [Rle.append_eq]; exact hs) (RleInv.step sub0 r done c hs h)
+    simpa [List.append_assoc] using this
+
+
+
+/-! ### RLE round trip -/
+
+theorem RleInv.init (eq : EqKind) (sub0 : Sub) : RleInv sub0 { eq, sub := sub0 } [] :=
+  Or.inl ⟨rfl, rfl, rfl, rfl⟩
+
+theorem Rle.foldl_eq (cells : List Cell) (r : Rle) : (cells.foldl Rle.append r).eq = r.eq := by
+  induction cells generalizing r with
+  | nil => rfl
+  | cons c cs ih => simp [List.foldl_cons, ih, Rle.append_eq]
+
+theorem rle_roundtrip_core (eq : EqKind) (hs : EqSound eq) (nullable : Bool) (k : Kind) (target : Nat)
+    (cells : List Cell) (hp : ∀ l : List Cell, l.Sublist cells → PlainRT k l) (hlen : cells.length < 2 ^ 29) :
+    decodeRle nullable k ((cells.foldl Rle.append { eq, sub := Sub.new nullable k target }).finish)
+      = some (cells.map (storedCell nullable k)) := by
+  have hinv := RleInv.foldl (Sub.new nullable k target) cells { eq, sub := Sub.new nullable k target } []
+    hs (RleInv.init eq _)
+  simp only [List.nil_append] at hinv
+  generalize cells.foldl Rle.append { eq, sub := Sub.new nullable k target } = r at hinv
+  rcases hinv with ⟨rfl, hc, _, _⟩ | ⟨heads, hpos, hl, hsub, hexp, hsl⟩
+  · simp [Rle.finish, hc, decodeRle, natOfLE, decodeVarints, expandRuns]
+  · have hne : (r.cur == 0) = false := by simp; omega
+    simp only [Rle.finish, hne, Bool.false_eq_true, ↓reduceIte]
+    generalize hcs : r.counts ++ [r.cur] = counts'
+    generalize hvs : counts'.flatMap encode32 = vs
+    have hheads : (heads ++ [r.prev]).length ≤ cells.length := hsl.length_le
+    have hcl : counts'.length = (heads ++ [r.prev]).length := by rw [← hcs]; simp [hl]
+    have hsum : counts'.sum = cells.length := by
+      rw [← hexp, ← hcs]; simp [expandRuns_length r.counts heads hl.symm]
+    have hvl : vs.length ≤ 5 * counts'.length := by rw [← hvs]; exact flatMap_encode32_length_le _
+    have h1 : counts'.length < 2 ^ 32 := by omega
+    have h2 : vs.length < 2 ^ 32 := by omega
+    simp only [decodeRle]
+    have e1 : natOfLE ((leBytes 4 counts'.length ++ leBytes 4 vs.length ++ vs ++ r.sub.finish).take 4)
+        = counts'.length := by
+      rw [List.append_assoc, List.append_assoc, List.take_left' (leBytes_length _ _), natOfLE_leBytes]
+      exact Nat.mod_eq_of_lt (by simpa using h1)
+    have e2 : natOfLE (((leBytes 4 counts'.length ++ leBytes 4 vs.length ++ vs ++ r.sub.finish).drop 4).take 4)
+        = vs.length := by
+      rw [List.append_assoc, List.append_assoc, List.drop_left' (leBytes_length _ _),
+        List.take_left' (leBytes_length _ _), natOfLE_leBytes]
+      exact Nat.mod_eq_of_lt (by simpa using h2)
+    have e3 : ((leBytes 4 counts'.length ++ leBytes 4 vs.length ++ vs ++ r.sub.finish).drop 8).take vs.length = vs := by
+      rw [List.append_assoc, List.drop_left' (by simp [leBytes_length]), List.take_left' rfl]
+    have e4 : (leBytes 4 counts'.length ++ leBytes 4 vs.length ++ vs ++ r.sub.finish).drop (8 + vs.length)
+        = r.sub.finish := by
+      rw [List.drop_left' (by simp [leBytes_length]; omega)]
+    rw [e1, e2, e3, e4]
+    have hdec : decodeVarints vs.length vs = some counts' := by
+      rw [← hvs]
+      apply varints_rt counts' _ _ (Nat.le_refl _)
+      intro v hv
+      have := le_sum_of_mem' counts' v hv
+      omega
+    rw [hdec]
+    simp only []
+    rw [hcl, hsub, sub_roundtrip nullable k target (heads ++ [r.prev]) (hp _ hsl) (by omega)]
+    rw [expandRuns_map, ← hcs, expandRuns_append r.counts heads [r.cur] [r.prev] hl.symm]
+    simp [expandRuns, ← hexp]
+
+
+/-! ### dictionary builder invariant -/
+
+/-- what `DictBlockIterator` makes of a key cell, given the dictionary -/
+def decKey (dict : List Bytes) (kc : Cell) : Cell :=
+  match kc with
+  | none => none
+  | some kb =>
+    let key := natOfLE kb
+    if key == DICT_NULL_KEY then none else (dict.map some).getD (key - (DICT_NULL_KEY + 1)) none
+
+def KeyOk (n : Nat) (kc : Cell) : Prop :=
+  ∃ k, kc = some (leBytes 4 k) ∧ (k = DICT_NULL_KEY ∨ (DICT_NULL_KEY + 1 ≤ k ∧ k < DICT_NULL_KEY + 1 + n)) ∧ k < 2 ^ 32
+
+theorem natOfLE_key (k : Nat) (h : k < 2 ^ 32) : natOfLE (leBytes 4 k) = k := by
+  rw [natOfLE_leBytes]; exact Nat.mod_eq_of_lt (by simpa using h)
+
+theorem decKey_mono (dict : List Bytes) (x : Bytes) (kc : Cell) (h : KeyOk dict.length kc) :
+    decKey (dict ++ [x]) kc = decKey dict kc := by
+  obtain ⟨k, rfl, hk, hlt⟩ := h
+  simp only [decKey, natOfLE_key k hlt]
+  rcases hk with rfl | ⟨h1, h2⟩
+  · simp
+  · have hne : (k == DICT_NULL_KEY) = false := by simp [DICT_NULL_KEY] at *; omega
+    simp only [hne, Bool.false_eq_true, ↓reduceIte, List.map_append, List.map_cons, List.map_nil]
+    rw [List.getD_eq_getElem?_getD, List.getD_eq_getElem?_getD, List.getElem?_append_left (by simp; omega)]
+
+theorem KeyOk.mono {n m : Nat} {kc : Cell} (h : KeyOk n kc) (hnm : n ≤ m) : KeyOk m kc := by
+  obtain ⟨k, rfl, hk, hlt⟩ := h
+  refine ⟨k, rfl, ?_, hlt⟩
+  rcases hk with h | ⟨h1, h2⟩
+  · exact .inl h
+  · exact .inr ⟨h1, by omega⟩
+
+theorem Dict.lookup_some (eq : EqKind) (item : Bytes) (dict : List Bytes) (j i : Nat)
+    (h : Dict.lookup eq item dict j = some i) :
+    j ≤ i ∧ i - j < dict.length ∧ itemEq eq item (dict.getD (i - j) []) = true := by
+  induction dict generalizing j with
+  | nil => simp [Dict.lookup] at h
+  | cons d ds ih =>
+    simp only [Dict.lookup] at h
+    split at h
+    · rename_i hd
+      injection h with h; subst h
+      simp [hd]
+    · have := ih (j + 1) h
+      obtain ⟨h1, h2, h3⟩ := this
+      refine ⟨by omega, by simp; omega, ?_⟩
+      have : i - j = (i - (j + 1)) + 1 := by omega
+      rw [this]; simpa using h3
+
+def DictInv (data0 : Sub) (rle0 : Rle) (d : Dict) (cells : List Cell) : Prop :=
+  ∃ keys : List Cell, d.rle = keys.foldl Rle.append rle0
+    ∧ d.data = (d.dict.map some).foldl Sub.append data0
+    ∧ keys.map (decKey d.dict) = cells
+    ∧ (∀ kc ∈ keys, KeyOk d.dict.length kc)
+    ∧ (d.dict.map some).Sublist cells
+    ∧ keys.length = cells.length
+
+theorem Dict.append_eq (d : Dict) (c : Cell) : (d.append c).eq = d.eq := by
+  cases c with
+  | none => rfl
+  | some item => simp only [Dict.append]; split <;> rfl
+
+theorem DictInv.step (data0 : Sub) (rle0 : Rle) (d : Dict) (cells : List Cell) (c : Cell)
+    (hs : EqSound d.eq) (hlen : cells.length < 2 ^ 29) (h : DictInv data0 rle0 d cells) :
+    DictInv data0 rle0 (d.append c) (cells ++ [c]) := by
+  obtain ⟨keys, hrle, hdata, hdec, hok, hsl, hkl⟩ := h
+  have hdl : d.dict.length ≤ cells.length := by simpa using hsl.length_le
+  cases c with
+  | none =>
+    refine ⟨keys ++ [some (Dict.keyBytes DICT_NULL_KEY)], ?_, hdata, ?_, ?_, ?_, by simp [hkl]⟩
+    · simp [Dict.append, hrle, List.foldl_append]
+    · simp only [Dict.append, List.map_append, hdec, List.map_cons, List.map_nil]
+      congr 1
+    · intro kc hkc
+      simp only [List.mem_append, List.mem_singleton] at hkc
+      rcases hkc with hkc | rfl
+      · exact hok kc hkc
+      · exact ⟨DICT_NULL_KEY, rfl, .inl rfl, by decide⟩
+    · exact List.Sublist.trans hsl (List.sublist_append_left _ _)
+  | some item =>
+    simp only [Dict.append]
+    split
+    · rename_i i hi
+      obtain ⟨_, h2, h3⟩ := Dict.lookup_some d.eq item d.dict 0 i hi
+      simp only [Nat.sub_zero] at h2 h3
+      have hitem : item = d.dict.getD i [] := by
+        have := hs (some item) (some (d.dict.getD i [])) (by simpa [cellEq] using h3)
+        injection this
+      have hk : DICT_NULL_KEY + 1 + i < 2 ^ 32 := by simp [DICT_NULL_KEY]; omega
+      refine ⟨keys ++ [some (Dict.keyBytes (DICT_NULL_KEY + 1 + i))], ?_, hdata, ?_, ?_, ?_, by simp [hkl]⟩
+      · simp [hrle, List.foldl_append]
+      · simp only [List.map_append, hdec, List.map_cons, List.map_nil]
+        congr 1
+        simp only [decKey, Dict.keyBytes, natOfLE_key _ hk]
+        have hne : (DICT_NULL_KEY + 1 + i == DICT_NULL_KEY) = false := by simp; omega
+        simp only [hne, Bool.false_eq_true, ↓reduceIte]
+        rw [show DICT_NULL_KEY + 1 + i - (DICT_NULL_KEY + 1) = i by omega]
+        rw [List.getD_eq_getElem?_getD, List.getElem?_map]
+        rw [hitem, List.getD_eq_getElem?_getD]
+        rw [List.getElem?_eq_getElem h2]
+        simp
+      · intro kc hkc
+        simp only [List.mem_append, List.mem_singleton] at hkc
+        rcases hkc with hkc | rfl
+        · exact hok kc hkc
+        · exact ⟨_, rfl, .inr ⟨by omega, by show _ < DICT_NULL_KEY + 1 + d.dict.length; omega⟩, hk⟩
+      · exact List.Sublist.trans hsl (List.sublist_append_left _ _)
+    · have hk : DICT_NULL_KEY + 1 + d.dict.length < 2 ^ 32 := by simp [DICT_NULL_KEY]; omega
+      refine ⟨keys ++ [some (Dict.keyBytes (DICT_NULL_KEY + 1 + d.dict.length))], ?_, ?_, ?_, ?_, ?_, by simp [hkl]⟩
+      · simp [hrle, List.foldl_append]
+      · simp [hdata, List.foldl_append]
+      · simp only [List.map_append, List.map_cons, List.map_nil]
+        congr 1
+        · rw [← hdec]
+          apply List.map_congr_left
+          intro kc hkc
+          exact decKey_mono d.dict item kc (hok kc hkc)
+        · simp only [decKey, Dict.keyBytes, natOfLE_key _ hk]
+          have hne : (DICT_NULL_KEY + 1 + d.dict.length == DICT_NULL_KEY) = false := by simp; omega
+          simp only [hne, Bool.false_eq_true, ↓reduceIte]
+          rw [show DICT_NULL_KEY + 1 + d.dict.length - (DICT_NULL_KEY + 1) = d.dict.length by omega]
+          simp
+      · intro kc hkc
+        simp only [List.mem_append, List.mem_singleton] at hkc
+        rcases hkc with hkc | rfl
+        · exact (hok kc hkc).mono (by simp)
+        · exact ⟨_, rfl, .inr ⟨by omega, by simp⟩, hk⟩
+      · simp only [List.map_append, List.map_cons, List.map_nil]
+        exact List.Sublist.append hsl (List.Sublist.refl _)
+
+
+/-! ### dictionary round trip -/
+
+theorem DictInv.foldl (data0 : Sub) (rle0 : Rle) (rest : List Cell) (d : Dict) (done : List Cell)
+    (hs : EqSound d.eq) (hlen : (done ++ rest).length < 2 ^ 29) (h : DictInv data0 rle0 d done) :
+    DictInv data0 rle0 (rest.foldl Dict.append d) (done ++ rest) := by
+  induction rest generalizing d done with
+  | nil => simpa using h
+  | cons c cs ih =>
+    simp only [List.foldl_cons]
+    have := ih (d.append c) (done ++ [c]) (by rw [Dict.append_eq]; exact hs)
+      (by simpa [List.append_assoc] using hlen)
+      (DictInv.step data0 rle0 d done c hs (by simp at hlen; omega) h)
+    simpa [List.append_assoc] using this
+
+theorem storedCell_some (nullable : Bool) (k : Kind) (it : Bytes) :
+    storedCell nullable k (some it) = some it := by
+  cases nullable <;> rfl
+
+theorem map_storedCell_somes (nullable : Bool) (k : Kind) (l : List Cell) (h : ∀ c ∈ l, c ≠ none) :
+    l.map (storedCell nullable k) = l := by
+  induction l with
+  | nil => rfl
+  | cons c cs ih =>
+    have hc := h c (by simp)
+    cases c with
+    | none => exact absurd rfl hc
+    | some it => simp [storedCell_some, ih (fun x hx => h x (by simp [hx]))]
+
+/-- byte length of a non-nullable fixed-width sub-builder holding key cells -/
+theorem keySub_finish_length (t : Nat) (l : List Cell) (h : ∀ c ∈ l, ∃ k, c = some (leBytes 4 k)) :
+    ((l.foldl Sub.append (Sub.new false (.fixed 4) t)).finish).length = 4 * l.length := by
+  simp only [Sub.finish, Sub.foldl_nullable, Sub.new, Sub.foldl_inner, Bool.false_eq_true, ↓reduceIte,
+    Plain.finish, Plain.foldl_kind, Plain.foldl_data, List.nil_append]
+  induction l with
+  | nil => rfl
+  | cons c cs ih =>
+    obtain ⟨k, rfl⟩ := h c (by simp)
+    simp only [List.flatMap_cons, List.length_append, List.length_cons, cellBytes, leBytes_length]
+    rw [ih (fun x hx => h x (by simp [hx]))]
+    omega
+
+theorem Rle.finish_length_le (r : Rle) :
+    r.finish.length ≤ 8 + 5 * (r.counts.length + 1) + r.sub.finish.length := by
+  simp only [Rle.finish]
+  split
+  · simp
+  · have := flatMap_encode32_length_le (r.counts ++ [r.cur])
+    simp only [List.length_append, leBytes_length, List.length_cons, List.length_nil] at *
+    omega
+
+theorem dict_roundtrip_core (eq : EqKind) (hs : EqSound eq) (nullable : Bool) (k : Kind) (target : Nat)
+    (cells : List Cell) (hp : ∀ l : List Cell, l.Sublist cells → PlainRT k l) (hlen : cells.length < 2 ^ 29) :
+    decodeDict nullable k ((cells.foldl Dict.append (Dict.new eq (Sub.new nullable k target))).finish)
+      = some cells := by
+  have hinv : DictInv (Sub.new nullable k target) (Dict.new eq (Sub.new nullable k target)).rle
+      (cells.foldl Dict.append (Dict.new eq (Sub.new nullable k target))) ([] ++ cells) := by
+    apply DictInv.foldl _ _ cells _ [] hs (by simpa using hlen)
+    exact ⟨[], rfl, rfl, rfl, by simp, by simp [Dict.new], rfl⟩
+  simp only [List.nil_append] at hinv
+  generalize cells.foldl Dict.append (Dict.new eq (Sub.new nullable k target)) = d at hinv
+  obtain ⟨keys, hrle, hdata, hdec, hok, hsl, hkl⟩ := hinv
+  have hdl : d.dict.length ≤ cells.length := by simpa using hsl.length_le
+  have hkeys : ∀ c ∈ keys, ∃ kk, c = some (leBytes 4 kk) := fun c hc => by
+    obtain ⟨kk, h1, _⟩ := hok c hc; exact ⟨kk, h1⟩
+  -- the key block
+  have hrt : decodeRle false (.fixed 4) d.rle.finish = some keys := by
+    rw [hrle]
+    simp only [Dict.new]
+    rw [rle_roundtrip_core .bytes eqSound_bytes false (.fixed 4) _ keys _ (by omega)]
+    · rw [map_storedCell_somes]
+      intro c hc; obtain ⟨kk, rfl⟩ := hkeys c hc; simp
+    · intro l hl t r
+      apply plain_fixed_roundtrip 4 t l _ r
+      intro it hit
+      obtain ⟨kk, hk⟩ := hkeys (some it) (hl.subset hit)
+      injection hk with hk; rw [hk, leBytes_length]
+  -- its length fits the u64 header
+  have hrl : d.rle.finish.length < 256 ^ 8 := by
+    have h1 := Rle.finish_length_le d.rle
+    have hri := RleInv.foldl (Dict.new eq (Sub.new nullable k target)).rle.sub keys
+      (Dict.new eq (Sub.new nullable k target)).rle [] (by simp [Dict.new]; exact eqSound_bytes)
+      (RleInv.init _ _)
+    rw [← hrle] at hri
+    simp only [List.nil_append] at hri
+    rcases hri with ⟨_, _, hc0, hs0⟩ | ⟨heads, _, hl, hsub, _, hsl'⟩
+    · rw [hc0, hs0] at h1; simp [Dict.new, Sub.new, Sub.finish, Plain.finish] at h1; omega
+    · have h2 : d.rle.sub.finish.length = 4 * (heads ++ [d.rle.prev]).length := by
+        rw [hsub]; simp only [Dict.new]
+        exact keySub_finish_length _ _ (fun c hc => hkeys c (hsl'.subset hc))
+      have h3 := hsl'.length_le
+      simp only [List.length_append, List.length_cons, List.length_nil] at h2 h3
+      omega
+  simp only [Dict.finish, decodeDict]
+  generalize hrb : d.rle.finish = rb at hrt hrl
+  generalize hdf : d.data.finish = df
+  have e1 : natOfBE ((beBytes 8 rb.length ++ beBytes 4 d.dict.length ++ rb ++ df).take 8) = rb.length := by
+    rw [List.append_assoc, List.append_assoc, List.take_left' (beBytes_length _ _)]
+    exact natOfBE_beBytes 8 _ hrl
+  have e2 : natOfBE (((beBytes 8 rb.length ++ beBytes 4 d.dict.length ++ rb ++ df).drop 8).take 4) = d.dict.length := by
+    rw [List.append_assoc, List.append_assoc, List.drop_left' (beBytes_length _ _),
+      List.take_left' (beBytes_length _ _)]
+    exact natOfBE_beBytes 4 _ (by omega)
+  have e3 : ((beBytes 8 rb.length ++ beBytes 4 d.dict.length ++ rb ++ df).drop 12).take rb.length = rb := by
+    rw [List.append_assoc, List.drop_left' (by simp [beBytes_length]), List.take_left' rfl]
+  have e4 : (beBytes 8 rb.length ++ beBytes 4 d.dict.length ++ rb ++ df).drop (12 + rb.length) = df := by
+    rw [List.drop_left' (by simp [beBytes_length]; omega)]
+  rw [e1, e2, e3, e4, hrt]
+  simp only []
+  have hitems : decodeSub nullable k d.dict.length df = d.dict.map some := by
+    rw [← hdf, hdata]
+    have := sub_roundtrip nullable k target (d.dict.map some) (hp _ hsl) (by simp; omega)
+    simp only [List.length_map] at this
+    rw [this, map_storedCell_somes]
+    intro c hc; simp at hc; obtain ⟨x, _, rfl⟩ := hc; simp
+  rw [hitems, ← hdec]
+  congr 1
+
+
+/-! ### unified block round trip, trailer, assembled column -/
+
+/-- what a block of the column hands back for a written cell: dictionary blocks keep NULL (key
+`i32::MIN`) whatever the nullability; plain / RLE blocks of a non-nullable column read a NULL
+back as the type's default -/
+def storedOf (o : ColOpts) (c : Cell) : Cell :=
+  match o.enc with
+  | .dict => c
+  | _ => storedCell o.nullable o.kind c
+
+/-- block round trip: the block built from `chunk` decodes to the stored cells -/
+def BlockRT (o : ColOpts) (chunk : List Cell) : Prop :=
+  decodeBlock o chunk.length (encodeBlock o chunk) = some (chunk.map (storedOf o))
+
+theorem BB.foldl_plain (cs : List Cell) (s : Sub) :
+    cs.foldl BB.append (.plain s) = .plain (cs.foldl Sub.append s) := by
+  induction cs generalizing s with
+  | nil => rfl
+  | cons c cs ih => simp [List.foldl_cons, BB.append, ih]
+
+theorem BB.foldl_rle (cs : List Cell) (r : Rle) :
+    cs.foldl BB.append (.rle r) = .rle (cs.foldl Rle.append r) := by
+  induction cs generalizing r with
+  | nil => rfl
+  | cons c cs ih => simp [List.foldl_cons, BB.append, ih]
+
+theorem BB.foldl_dict (cs : List Cell) (d : Dict) :
+    cs.foldl BB.append (.dict d) = .dict (cs.foldl Dict.append d) := by
+  induction cs generalizing d with
+  | nil => rfl
+  | cons c cs ih => simp [List.foldl_cons, BB.append, ih]
+
+theorem blockRT_of (o : ColOpts) (chunk : List Cell)
+    (hp : ∀ l : List Cell, l.Sublist chunk → PlainRT o.kind l) (hlen : chunk.length < 2 ^ 29)
+    (heq : o.enc = .plain ∨ EqSound o.eq) : BlockRT o chunk := by
+  unfold BlockRT
+  cases henc : o.enc with
+  | plain =>
+    simp only [decodeBlock, encodeBlock, BB.new, henc, BB.foldl_plain, BB.finish, storedOf]
+    rw [sub_roundtrip _ _ _ _ (hp chunk (List.Sublist.refl _)) (by omega)]
+    congr 1
+    apply List.map_congr_left
+    intro c _; simp [storedOf, henc]
+  | rle =>
+    have hs : EqSound o.eq := by
+      rcases heq with h | h
+      · simp [henc] at h
+      · exact h
+    simp only [decodeBlock, encodeBlock, BB.new, henc, BB.foldl_rle, BB.finish]
+    rw [rle_roundtrip_core o.eq hs o.nullable o.kind _ chunk hp hlen]
+    congr 1
+    apply List.map_congr_left
+    intro c _; simp [storedOf, henc]
+  | dict =>
+    have hs : EqSound o.eq := by
+      rcases heq with h | h
+      · simp [henc] at h
+      · exact h
+    simp only [decodeBlock, encodeBlock, BB.new, henc, BB.foldl_dict, BB.finish]
+    rw [dict_roundtrip_core o.eq hs o.nullable o.kind _ chunk hp hlen]
+    congr 1
+    symm
+    apply List.map_id''
+    intro c; simp [storedOf, henc]
+
+/-! items accepted by a kind; closed under taking sublists -/
+
+def KindOk (k : Kind) (xs : List Cell) : Prop :=
+  match k with
+  | .fixed w => FixedOk w xs
+  | .char w => CharOk w xs
+  | .blob => BlobOk xs
+
+theorem flatMap_length_sublist {α β} (f : α → List β) {l xs : List α} (h : l.Sublist xs) :
+    (l.flatMap f).length ≤ (xs.flatMap f).length := by
+  induction h with
+  | slnil => simp
+  | cons a _ ih => simp only [List.flatMap_cons, List.length_append]; omega
+  | cons_cons a _ ih => simp only [List.flatMap_cons, List.length_append]; omega
+
+theorem KindOk.sublist {k : Kind} {l xs : List Cell} (h : KindOk k xs) (hl : l.Sublist xs) : KindOk k l := by
+  cases k with
+  | fixed w => exact fun it hit => h it (hl.subset hit)
+  | char w => exact fun it hit => h it (hl.subset hit)
+  | blob =>
+    have := flatMap_length_sublist (cellBytes .blob) hl
+    simp only [KindOk, BlobOk] at h ⊢; omega
+
+theorem plainRT_of_kindOk {k : Kind} {l : List Cell} (h : KindOk k l) : PlainRT k l := by
+  cases k with
+  | fixed w => exact fun t r => plain_fixed_roundtrip w t l h r
+  | char w => exact fun t r => plain_char_roundtrip w t l h r
+  | blob => exact fun t r => plain_blob_roundtrip t l h r
+
+/-! trailer -/
+
+theorem openBlock_sealBlock (ck : CkType) (bt : Nat) (payload : Bytes) (hbt : bt < BLOCK_TYPE_COUNT) :
+    openBlock (ck == .crc32) (sealBlock ck bt payload) = .ok (bt, payload) := by
+  simp only [sealBlock]
+  generalize hbody : payload ++ beBytes 4 bt = body
+  generalize hb : body ++ beBytes 4 ck.code ++ beBytes 8 (buildChecksum ck body) = blk
+  have hbl : body.length = payload.length + 4 := by rw [← hbody]; simp [beBytes_length]
+  have hlen : blk.length = payload.length + 16 := by rw [← hb]; simp [beBytes_length, hbl]
+  have hck : buildChecksum ck body < 256 ^ 8 := by
+    cases ck
+    · simp [buildChecksum]
+    · exact Nat.lt_of_lt_of_le (crc32_lt body) (by decide)
+  have e_bt : natOfBE ((blk.drop (blk.length - 16)).take 4) = bt := by
+    rw [hlen, ← hb, ← hbody, show payload.length + 16 - 16 = payload.length by omega]
+    simp only [List.append_assoc]
+    rw [List.drop_left' rfl, List.take_left' (beBytes_length _ _)]
+    exact natOfBE_beBytes 4 bt (by simp [BLOCK_TYPE_COUNT] at hbt; omega)
+  have e_ct : natOfBE ((blk.drop (blk.length - 12)).take 4) = ck.code := by
+    rw [hlen, ← hb, show payload.length + 16 - 12 = body.length by omega, List.append_assoc,
+      List.drop_left' rfl, List.take_left' (beBytes_length _ _)]
+    exact natOfBE_beBytes 4 _ (by cases ck <;> decide)
+  have e_ck : natOfBE ((blk.drop (blk.length - 8)).take 8) = buildChecksum ck body := by
+    rw [hlen, ← hb, show payload.length + 16 - 8 = (body ++ beBytes 4 ck.code).length by simp [beBytes_length]; omega,
+      List.drop_left' rfl, List.take_of_length_le (by simp [beBytes_length])]
+    exact natOfBE_beBytes 8 _ hck
+  have e_body : blk.take (blk.length - BLOCK_META_CHECKSUM_SIZE) = body := by
+    rw [hlen, ← hb, List.append_assoc]
+    simp only [BLOCK_META_CHECKSUM_SIZE]
+    rw [show payload.length + 16 - 12 = body.length by omega, List.take_left' rfl]
+  have e_pay : blk.take (blk.length - BLOCK_META_SIZE) = payload := by
+    rw [hlen, ← hb, ← hbody]
+    simp only [BLOCK_META_SIZE, List.append_assoc]
+    rw [show payload.length + 16 - 16 = payload.length by omega, List.take_left' rfl]
+  simp only [openBlock]
+  rw [if_neg (by simp only [BLOCK_META_SIZE]; omega)]
+  simp only [e_bt, e_ct, e_ck, e_body, e_pay]
+  rw [if_neg (by omega)]
+  cases ck <;> simp [CkType.ofCode?, CkType.code, verifyChecksum]
+
+/-! blocks of an assembled column -/
+
+def infosOf (o : ColOpts) : List (List Cell) → Nat → List BlockInfo
+  | [], _ => []
+  | ch :: rest, row =>
+    { firstRowid := row, rowCount := ch.length, cells := ch.map (storedOf o),
+      rawNullable := o.nullable && o.enc == .plain } :: infosOf o rest (row + ch.length)
+
+theorem blockInfos_assemble (o : ColOpts) (bt : Nat) (hbt : bt < BLOCK_TYPE_COUNT)
+    (chunks : List (List Cell)) (hrt : ∀ ch ∈ chunks, BlockRT o ch) (pre : Bytes) (row : Nat) :
+    blockInfos o (pre ++ (assemble o bt chunks pre.length row).1) (assemble o bt chunks pre.length row).2
+      = some (infosOf o chunks row) := by
+  induction chunks generalizing pre row with
+  | nil => rfl
+  | cons ch rest ih =>
+    simp only [assemble, blockInfos, infosOf]
+    generalize hblk : sealBlock o.ck bt (encodeBlock o ch) = blk
+    have hsl : ((pre ++ (blk ++ (assemble o bt rest (pre.length + blk.length) (row + ch.length)).1)).drop pre.length).take blk.length = blk := by
+      rw [List.drop_left' rfl, List.take_left' rfl]
+    rw [hsl, ← hblk, openBlock_sealBlock o.ck bt _ hbt]
+    simp only []
+    have h1 := hrt ch (by simp)
+    unfold BlockRT at h1
+    rw [h1]
+    have h2 := ih (fun c hc => hrt c (by simp [hc])) (pre ++ blk) (row + ch.length)
+    simp only [List.length_append, List.append_assoc, hblk] at h2
+    rw [hblk, h2]
+
+def WfBlocks : List BlockInfo → Nat → Prop
+  | [], _ => True
+  | b :: rest, base =>
+    b.firstRowid = base ∧ b.rowCount = b.cells.length ∧ 0 < b.rowCount ∧ WfBlocks rest (base + b.rowCount)
+
+theorem infosOf_wf (o : ColOpts) (chunks : List (List Cell)) (row : Nat) (hne : ∀ ch ∈ chunks, ch ≠ []) :
+    WfBlocks (infosOf o chunks row) row := by
+  induction chunks generalizing row with
+  | nil => trivial
+  | cons ch rest ih =>
+    refine ⟨rfl, by simp, ?_, ih _ (fun c hc => hne c (by simp [hc]))⟩
+    have := hne ch (by simp)
+    exact List.length_pos_iff.mpr this
+
+theorem infosOf_cells (o : ColOpts) (chunks : List (List Cell)) (row : Nat) :
+    (infosOf o chunks row).flatMap (·.cells) = chunks.flatten.map (storedOf o) := by
+  induction chunks generalizing row with
+  | nil => rfl
+  | cons ch rest ih => simp [infosOf, ih]
 
 end RlModel
